@@ -91,7 +91,9 @@ class Sim:
         prop="C10",
         decisions=None,
         stats=None,
+        fail_at=None,
     ):
+        self.fail_at = fail_at  # crash: the run dies right before its fail_at-th task (0-based)
         self.rng = rng
         self.policy = policy
         self.release = release
@@ -175,6 +177,9 @@ class Sim:
                     raise HarnessError("schedsim step cap exceeded")
                 i = self._pick(ready, prio, starved)
                 k = ready.pop(i)
+                if self.fail_at is not None and done == self.fail_at:
+                    self.bump("fault.task_failure")
+                    raise fakes.InjectedTaskFailure(f"simulated crash before task {done} of {total} ({ko.cname(k)})")
                 self.order.append(ko.cname(k))
                 node = g[k]
                 self._run_task(k, node, deps[k], cache)
